@@ -119,7 +119,26 @@ Model_u2f_register_new(c) ==
     [header |-> c.header, publicKey |-> UncompressedPoint(c.key.x, c.key.y), keyHandle |-> c.keyHandle,
      cert |-> c.cert, sig |-> c.sig]
 
-LookupOps == {"optable", "enum_str", "enum_u8", "permissions", "status_codes", "u2f_register_new"}
+\* Default / builder constructors and conversion helpers (behaviour beyond the listed properties):
+\* CTAP 2.1 6.4 defaults (rk false, up true; everything else absent), an all-zero AAGUID, the
+\* empty version list; builders leave every optional member unset.
+BlankOf(s) == [k \in AllNames(s) |-> << >>]
+GiOptionsDefault == [BlankOf("GetInfoOptions") EXCEPT !.rk = FALSE, !.up = TRUE]
+Model_defaults ==
+    [getInfoDefault |-> [BlankOf("GetInfoResp") EXCEPT !.versions = << >>, !.aaguid = Rep(0, 16), !.options = <<GiOptionsDefault>>],
+     getInfoBuilt |-> [BlankOf("GetInfoResp") EXCEPT !.versions = << >>, !.aaguid = Rep(7, 16)],
+     ctapOptionsDefault |-> GiOptionsDefault,
+     mcBuiltBytes |-> EncTy(T_Indexed("McResp"), [BlankOf("McResp") EXCEPT !.fmt = N_none, !.authData = <<1, 2>>], F),
+     userFrom |-> [id |-> <<9, 9, 9>>, icon |-> << >>, name |-> << >>, displayName |-> << >>],
+     paramFromKnown |-> [alg |-> ALG_EdDSA, type |-> N_publicKey],
+     paramWithAlg |-> [alg |-> ALG_ES256, type |-> N_publicKey],
+     cpDefaultBytes |-> <<160>>, cmDefaultBytes |-> <<160>>,
+     mcExtDefault |-> BlankOf("McExt"), gaExtInDefault |-> BlankOf("GaExtIn"),
+     extOutUnsetIsSet |-> FALSE, extOutHmacIsSet |-> TRUE,
+     credProtectDefault |-> 1, knownAlgs |-> <<ALG_ES256, ALG_EdDSA>>, u2fVersion |-> N_U2F_V2,
+     maxMessage |-> MAX_MESSAGE_SIZE, authDataLen |-> AUTHENTICATOR_DATA_LENGTH]
+
+LookupOps == {"optable", "enum_str", "enum_u8", "permissions", "status_codes", "u2f_register_new", "defaults"}
 Model_lookup(c) ==
     CASE c.op = "optable" -> Model_optable(c.c)
       [] c.op = "enum_str" -> Model_enum_str(c.table, c.s)
@@ -127,6 +146,7 @@ Model_lookup(c) ==
       [] c.op = "permissions" -> Model_permissions(c.n)
       [] c.op = "status_codes" -> Model_status_codes
       [] c.op = "u2f_register_new" -> Model_u2f_register_new(c)
+      [] c.op = "defaults" -> Model_defaults
 
 (***************************************************************************)
 (* Dispatch: the request variant, the scripted handler outcome             *)
